@@ -2,9 +2,9 @@ package main
 
 import (
 	"fmt"
-	"os"
 	"go/token"
 	"go/types"
+	"os"
 	"sort"
 	"strings"
 
@@ -146,11 +146,11 @@ type GuardExempt struct {
 
 // requirement: lock needed by a function on entry, expressed on its own parameters / free variables.
 type lockReq struct {
-	Key   string // canonical lock key in the function's own terms
-	Mode  int
-	Field string // which guarded field needs it
-	Pos   token.Pos
-	Chain []string
+	Key    string // canonical lock key in the function's own terms
+	Mode   int
+	Field  string // which guarded field needs it
+	Pos    token.Pos
+	Chain  []string
 	Origin string // accessing function | field | read/write
 }
 
@@ -589,8 +589,8 @@ func discoverGuards(p *Prog) {
 	le := newLockEngine(p)
 	type stat struct {
 		total, locked int
-		byLock       map[string]int
-		unlocked     []string
+		byLock        map[string]int
+		unlocked      []string
 	}
 	stats := map[string]*stat{}
 	for _, fn := range p.Funcs {
